@@ -367,6 +367,65 @@ def rule_publish(ctx, mod, fname, stops):
                detail='published early at %s' % [o.loc for o in offenders] if offenders else '')
 
 
+HANDOVER_ROOTS = ['myth_wake_one_from_queue', 'myth_wake_many_from_queue', 'myth_wake_if_any_from_queue', 'myth_wake_many_from_stack',
+                  'myth_uncond_signal_body', 'myth_uncond_wait_cb', 'myth_block_on_queue_cb', 'myth_block_on_stack_cb', 'myth_join_2',
+                  'myth_join_3', 'myth_yield_ex_1', 'myth_create_1', 'myth_create_ex_body', 'myth_wsapi_runqueue_push']
+THREAD_TY = '%struct.myth_thread*'
+
+
+def rule_handover(ctx, fl, rule='C03.8', only=None):
+    ctx.doc(rule, 'hand-over: once a thread has been published (run-queue push/put/pass, sleep-queue enqueue, sleep-stack push, store '
+            'into a join_thread / uncond slot) the publisher does not read or write that thread\'s record any more: another worker '
+            'may already be running it (stale-value dataflow per published pointer, loop-carried variables handled per edge)')
+    from ..lib import StaleAnalysis
+    v = ctx.view('myth_if_native.c', roots=HANDOVER_ROOTS, stops=PUBLISH_CALLS + ('myth_queue_pop', 'myth_sleep_queue_deq', 'myth_sleep_stack_pop',
+                                                                               'myth_mutex_unlock_body', 'myth_entry_point_cleanup') + lib.SPIN_STOPS,
+                 flavour=fl)
+    v.check_fields(PUBLISH_FIELDS)
+    n = 0
+    for name in HANDOVER_ROOTS:
+        if only is not None and name not in only:
+            continue
+        f = ctx.need_fn(v, name)
+        events = {}
+        for c in call_sites(f, PUBLISH_CALLS):
+            if len(c.args) >= 2:
+                events[c.id] = (c, c.args[1])
+        for st in f.order:
+            if st.op == 'store' and f.field(st) in PUBLISH_FIELDS and not (isinstance(st.ops[0], dict) and st.ops[0].get('null')):
+                events[st.id] = (st, st.ops[0])
+        if not events:
+            continue
+        n += 1
+
+        def tracked(x):
+            ty = x.get('ty') if isinstance(x, dict) else x.ty
+            return ty == THREAD_TY or ty == '%struct.myth_sleep_queue_item*'
+
+        def stale_at(ev, f=f, events=events):
+            pub = f.strip(events[ev.id][1])
+            out = set()
+            for i in f.order:
+                if not i.ty or not i.ty.endswith('*'):
+                    continue
+                if f.strip(i.id) == pub or f.strip(f.ap(i.id).root) == pub:
+                    out.add(i.id)
+            if isinstance(pub, str):
+                out.add(pub)
+            for p_ in f.params:
+                if f.strip(p_['id']) == pub:
+                    out.add(p_['id'])
+            return out
+        sa = StaleAnalysis(f, tracked, [e[0] for e in events.values()], stale_at=stale_at)
+        uses = [(i, r) for i, r in sa.stale_uses if i.op in ('load', 'store', 'cmpxchg', 'atomicrmw') and i.id not in events and
+                isinstance(i.ptr, str) and (i.ptr == r or r in f.sources(f.ap(i.ptr).root) or f.strip(i.ptr) == r)]
+        ctx.ob(rule, '%s: no access to a thread after publishing it' % name, not uses,
+               'after the hand-over point the thread belongs to whoever takes it from the queue; touching its record races with '
+               'its new owner (e.g. clobbers the env binding it was given)', loc=(uses[0][0].loc if uses else f.loc),
+               detail='' if not uses else 'access to %s at %s' % (describe(f, uses[0][1]), [u[0].loc for u in uses[:4]]))
+    ctx.floor(rule, 12 if only is None else len(only))
+
+
 SWAP_FUNCS = {  # function -> translation unit that contains it
     'myth_create_ex_body': 'myth_if_native.c', 'myth_join_body': 'myth_if_native.c',
     'myth_yield_ex_body': 'myth_if_native.c', 'myth_uncond_wait_body': 'myth_if_native.c',
@@ -412,6 +471,7 @@ def run(ctx):
         for fname in SWAP_FUNCS:
             ctx.need_fn(v, fname)
             rule_publish(ctx, v, fname, stops)
+        rule_handover(ctx, fl)
     ctx.floor('C03.1', 14 * 3)
     ctx.floor('C03.2', 11 * 5)
     ctx.floor('C03.3', 11)
@@ -448,6 +508,12 @@ MUTANTS = [
     {'name': 'enqueue the current thread in myth_block_on_queue before the switch', 'expect': 'C03.7',
      'edits': [('src/myth_sync_func.h', '  /* now save the current context, myth_sleep_queue_enq_th(q, cur)\n     to put cur in the q, and jump to next_ctx */\n  myth_swap_context_withcall(&cur->context, next_ctx,\n\t\t\t     myth_block_on_queue_cb, q, cur, m);',
                 '  myth_sleep_queue_enq_th(q, cur);\n  myth_swap_context_withcall(&cur->context, next_ctx,\n\t\t\t     myth_uncond_wait_cb, q, cur, m);')]},
+    {'name': 'signal rebinds the waiter after pushing it (seed C08/m1)', 'expect': 'C03.8',
+     'edits': [('src/myth_sync_func.h', "  to_wake->env = env;\n  u->th = 0;\n  myth_queue_push(&env->runnable_q, to_wake);\n  return 0;", "  u->th = 0;\n  myth_queue_push(&env->runnable_q, to_wake);\n  to_wake->env = env;\n  return 0;")]},
+    {'name': 'wait callback touches the waiter after publishing it (seed C08/m3)', 'expect': 'C03.8',
+     'edits': [('src/myth_sync_func.h', "  myth_thread_t cur = arg2;\n  u->th = cur;\n}", "  myth_thread_t cur = arg2;\n  u->th = cur;\n  cur->env = NULL;\n}")]},
+    {'name': 'wake-many reads ->next of a thread it already pushed', 'expect': 'C03.8',
+     'edits': [('src/myth_sync_func.h', "    myth_thread_t next = to_wake->next;\n    myth_queue_push(&env->runnable_q, to_wake);\n    to_wake = next;\n  }\n  return n;\n}\n\n/* ----------- once", "    myth_queue_push(&env->runnable_q, to_wake);\n    to_wake = to_wake->next;\n  }\n  return n;\n}\n\n/* ----------- once")]},
     {'name': 'swap rdi/rsi binding of callback arguments', 'expect': 'C03.6', 'broken_ok': True,
      'edits': [(CTXF, ':R_A((void*)(switch_from)),R_C((void*)(switch_to)),R_DI((void*)arg1),R_SI((void*)arg2),R_D((void*)arg3)\\',
                 ':R_A((void*)(switch_from)),R_C((void*)(switch_to)),"r"((void*)arg1),R_SI((void*)arg2),R_D((void*)arg3)\\')]},
